@@ -30,6 +30,7 @@
 #include "parsec/mca/termdet/termdet.h"
 #include "parsec/mca/termdet/fourcounter/termdet_fourcounter.h"
 #include "parsec/parsec_comm_engine.h"
+#include "parsec/class/list.h"
 #include <mpi.h>
 #include <signal.h>
 
@@ -73,6 +74,7 @@ static long T_byN[MAXN + 1];
 static uint64_t *hashes; static long nhashes, caphashes;
 static pthread_barrier_t bar_start, bar_end;
 static volatile int quit_all;
+static int list_model; static pthread_mutex_t list_mx;
 
 #define EV_BEGIN() do { AADD(in_call, 1); AADD(activity, 1); } while (0)
 #define EV_END()   do { AADD(activity, 1); AADD(in_call, -1); AADD(T_events, 1); VF_TICK(); } while (0)
@@ -80,7 +82,7 @@ static volatile int quit_all;
 static void fail(const char *key, const char *fmt, ...) {
     char buf[400]; va_list ap; va_start(ap, fmt); vsnprintf(buf, sizeof buf, fmt, ap); va_end(ap);
     ASTORE(failed, 1); ASTORE(stop, 1);
-    vf_violation(key, "%s | multi-threaded N=%d channels=%s schedule_seed=%llu waves=%ld ctl_in_flight=%ld outstanding=%ld", buf, P.N,
+    vf_violation(key, "%s | multi-threaded list-model=%s N=%d channels=%s schedule_seed=%llu waves=%ld ctl_in_flight=%ld outstanding=%ld", buf, list_model == 0 ? "separate" : list_model == 1 ? "process" : "free", P.N,
                  P.unified ? "fifo-per-pair" : "fifo-per-pair-and-tag", (unsigned long long)sched_seed, waves, ctl_inflight, outstanding);
 }
 static void relax(void) { if (vf_chance(&trng, 100)) usleep(20); else sched_yield(); }
@@ -162,7 +164,9 @@ static void do_monitor(int r) {
 }
 static void do_ready(int r) {
     ASTORE(R[r].ready, 1); AADD(outstanding, -1);     /* the not-ready unit; the startup actions are already counted */
+    if (list_model == 0) pthread_mutex_lock(&list_mx);
     MOD(r)->taskpool_ready(ftp[r]);
+    if (list_model == 0) pthread_mutex_unlock(&list_mx);
     ASTORE(R[r].ready_done, 1);
 }
 static void do_startup(int r) {
@@ -230,7 +234,9 @@ static void deliver(int d, msg_t *m) {
         ((parsec_termdet_fourcounter_msg_down_t *)m->payload)->tp_id = ftp[d]->taskpool_id;
         if (!ALOAD(R[d].ready_done)) AADD(delayed_ctl, 1);
         int q = (ALOAD(outstanding) == 0);
+        if (list_model <= 1) pthread_mutex_lock(&list_mx);
         parsec_termdet_fourcounter_msg_dispatch(&parsec_ce, PARSEC_TERMDET_FOURCOUNTER_MSG_TAG, m->payload, m->size, s, NULL);
+        if (list_model <= 1) pthread_mutex_unlock(&list_mx);
         AADD(ctl_inflight, -1);
         free(m);
         if (q && !ALOAD(stop)) {
@@ -239,6 +245,36 @@ static void deliver(int d, msg_t *m) {
                 fail("liveness:livelock-after-quiescence", "all ranks idle and no application message outstanding for %ld control deliveries, not terminated", lim);
         }
     }
+}
+
+/* At a deadlock verdict no event is in progress: the module's state can be read safely.  The diagnosis names the
+ * mechanism (it does not decide the verdict): which ranks wait, and whether the module's delayed-message list still
+ * holds messages for taskpools that are ready (parked after/while the ready-flush ran) or has inconsistent links. */
+static int stress_delayed = 0;
+/* The module keeps ONE delayed-message list per process; here all simulated ranks share it.
+ *   list_model 0 "separate" (default): taskpool_ready and msg_dispatch are serialised by a harness mutex, so the shared list never
+ *                sees more concurrency than the per-process lists of really separate ranks would (none across ranks).
+ *   list_model 1 "process": only msg_dispatch is serialised (a process has ONE comm thread), taskpool_ready runs concurrently from the
+ *                workers: the legal concurrency of one process that runs several dynamic-termination taskpools at once.
+ *   list_model 2 "free": nothing serialised (more concurrency than any real configuration; exploration only). */
+/* (list_model and list_mx are declared at the top of the file) */
+static int diagnose_deadlock(char *buf, size_t n) {
+    size_t o = 0; static const char *sn[] = {"not-monitored", "not-ready", "busy", "idle", "terminated"};
+    for (int r = 0; r < P.N && o + 40 < n; r++) {
+        int st = ftp[r]->tdm.module ? (int)MOD(r)->taskpool_state(ftp[r]) : 0;
+        o += snprintf(buf + o, n - o, "r%d=%s ", r, st >= 0 && st <= 4 ? sn[st] : "?");
+    }
+    parsec_list_t *L = &parsec_termdet_fourcounter_delayed_messages;
+    int fwd = 0, bwd = 0, for_ready = 0, mine = 0;
+    for (parsec_list_item_t *it = PARSEC_LIST_ITERATOR_FIRST(L); it != PARSEC_LIST_ITERATOR_END(L) && fwd < 100000; it = PARSEC_LIST_ITERATOR_NEXT(it)) {
+        fwd++;
+        parsec_termdet_fourcounter_delayed_msg_t *dm = (parsec_termdet_fourcounter_delayed_msg_t *)it;
+        uint32_t id = ((parsec_termdet_fourcounter_msg_down_t *)dm->msg)->tp_id;
+        for (int r = 0; r < P.N; r++) if (ftp[r] && ftp[r]->taskpool_id == id) { mine++; if (R[r].ready_done) { for_ready++; if (o + 60 < n) o += snprintf(buf + o, n - o, "[delayed msg for READY rank %d from %d] ", r, dm->src); } }
+    }
+    for (parsec_list_item_t *it = PARSEC_LIST_ITERATOR_LAST(L); it != PARSEC_LIST_ITERATOR_BEGIN(L) && bwd < 100000; it = PARSEC_LIST_ITERATOR_PREV(it)) bwd++;
+    snprintf(buf + o, n - o, "| delayed list: %d items forward, %d backward, %d of this schedule, %d for ready taskpools", fwd, bwd, mine, for_ready);
+    return fwd != bwd ? 2 : for_ready ? 1 : 0;
 }
 
 /* ---------------- threads ---------------- */
@@ -313,6 +349,9 @@ static void choose_params(vf_rng_t *g, int nmax) {
     P.p_hold = vf_chance(g, 300) ? 0 : 20 + vf_randn(g, 300); P.hold_max = 4 + vf_randn(g, 1 << (2 + vf_randn(g, 8)));
     P.p_pretask = vf_randn(g, 500); P.p_setapi = vf_randn(g, 500); P.p_late = vf_chance(g, 400);
     P.p_slow_worker = vf_chance(g, 500) ? 0 : vf_randn(g, 600); P.p_slow_comm = vf_chance(g, 500) ? 0 : vf_randn(g, 600);
+    if (stress_delayed) {   /* many ranks become ready late and at about the same time, little work: the delayed-message path is busy */
+        P.N = nmax; task_budget = 2 + vf_randn(g, 6); msg_budget = vf_randn(g, 3); P.p_hold = 0; P.p_late = 0; P.p_slow_worker = P.p_slow_comm = 0; P.p_rdv = 0;
+    }
 }
 
 static int run_schedule(uint64_t seed, int nmax) {
@@ -334,7 +373,12 @@ static int run_schedule(uint64_t seed, int nmax) {
             /* confirm once more after a pause: nothing can have changed if this was a true snapshot */
             usleep(2000);
             if (ALOAD(activity) == v1 && ALOAD(in_call) == 0 && ALOAD(ctl_inflight) == 0 && ALOAD(outstanding) == 0 && ALOAD(n_terminated) < P.N && !ALOAD(stop))
-                fail("liveness:deadlock-after-quiescence", "all ranks idle, no message anywhere, %ld of %d ranks terminated", ALOAD(n_terminated), P.N);
+            {
+                char dg[900]; int cls = diagnose_deadlock(dg, sizeof dg);
+                fail(cls == 2 ? "liveness:deadlock-after-quiescence:delayed-list-links-inconsistent" :
+                     cls == 1 ? "liveness:deadlock-after-quiescence:delayed-message-parked-for-ready-taskpool" : "liveness:deadlock-after-quiescence",
+                     "all ranks idle, no message anywhere, %ld of %d ranks terminated: %s", ALOAD(n_terminated), P.N, dg);
+            }
         }
     }
     pthread_barrier_wait(&bar_end);
@@ -371,6 +415,9 @@ int main(int argc, char **argv) {
     uint64_t seed = (uint64_t)vf_arg_ll(argc, argv, "--seed", 1);
     int nmax = (int)vf_arg_ll(argc, argv, "--nmax", MAXN);
     const char *hashfile = vf_arg(argc, argv, "--hashfile", NULL);
+    stress_delayed = vf_has_flag(argc, argv, "--stress-delayed");
+    { const char *lm = vf_arg(argc, argv, "--list-model", "separate"); list_model = !strcmp(lm, "process") ? 1 : !strcmp(lm, "free") ? 2 : 0; }
+    pthread_mutex_init(&list_mx, NULL);
     if (nmax < 1 || nmax > MAXN) return 2;
     cpu_set_t cpus; sched_getaffinity(0, sizeof cpus, &cpus);
     int pargc = 1; char *pargv_[2] = {argv[0], NULL}; char **pargv = pargv_;
@@ -396,11 +443,11 @@ int main(int argc, char **argv) {
     if (nhashes) qsort(hashes, nhashes, sizeof *hashes, cmp_u64);
     long distinct = 0; for (long i = 0; i < nhashes; i++) if (i == 0 || hashes[i] != hashes[i - 1]) hashes[distinct++] = hashes[i];
     if (hashfile) { FILE *f = fopen(hashfile, "wb"); if (f) { if (distinct) fwrite(hashes, sizeof *hashes, distinct, f); fclose(f); } }
-    vf_out("{\"type\":\"summary\",\"mode\":\"mt\",\"schedules\":%ld,\"nontrivial\":%ld,\"distinct_nontrivial\":%ld,\"events\":%ld,\"waves\":%ld,\"max_waves\":%ld,"
+    vf_out("{\"type\":\"summary\",\"mode\":\"mt\",\"list_model\":%d,\"schedules\":%ld,\"nontrivial\":%ld,\"distinct_nontrivial\":%ld,\"events\":%ld,\"waves\":%ld,\"max_waves\":%ld,"
            "\"reactivations\":%ld,\"app_received_while_busy\":%ld,\"ctl_delayed_not_ready\":%ld,\"app_parked\":%ld,\"holds\":%ld,\"rendezvous\":%ld,"
            "\"ctl_msgs\":%ld,\"app_msgs\":%ld,\"forwards\":%ld,\"recv_without_pending_action\":%ld,\"tasks\":%ld,\"callbacks\":%ld,\"leftover_ctl\":%ld,"
            "\"max_ctl_deliveries_after_quiescence\":%ld,\"byN\":[%ld,%ld,%ld,%ld,%ld,%ld,%ld,%ld],\"violations\":%d}",
-           T_sched, T_nontrivial, distinct, T_events, T_waves, T_max_waves, T_react, T_overlap, T_delayed, T_parked, T_holds, T_rdv, T_ctl, T_app,
+           list_model, T_sched, T_nontrivial, distinct, T_events, T_waves, T_max_waves, T_react, T_overlap, T_delayed, T_parked, T_holds, T_rdv, T_ctl, T_app,
            T_forwards, T_nopend, T_tasks, T_callbacks, T_leftover_ctl, T_max_postq,
            T_byN[1], T_byN[2], T_byN[3], T_byN[4], T_byN[5], T_byN[6], T_byN[7], T_byN[8], vf_nviolations);
     fflush(stdout);
